@@ -198,6 +198,20 @@ func orHasConst(n *model.Node) bool {
 	return false
 }
 
+// beyondKnown: when an instance fails only for the recorded finding (additionalProperties beside allOf), it is
+// validated once more with that one clause switched off, so that anything else that is wrong with it is
+// still reported (a recorded finding must not hide a different violation of the same property)
+func beyondKnown(err error, inst, schema *jsonv.Value, ctx *oas.Ctx) error {
+	if e, ok := err.(*oas.Err); !ok || !(e.AllOfVsAdditional || strings.Contains(e.Msg, "unexpected property") && strings.Contains(e.Msg, "/allOf")) {
+		return err
+	}
+	tol := &oas.Ctx{Components: ctx.Components, TolerateAllOfAdditional: true}
+	if err2 := oas.Validate(inst, schema, "#", tol); err2 != nil {
+		return err2
+	}
+	return err
+}
+
 func oasVerdict(kind string, err error, detail string) *ev.Verdict {
 	e := err.(*oas.Err)
 	kw := e.Keyword
@@ -279,13 +293,21 @@ func oracle(c Case) *ev.Verdict {
 	}
 	// (4) the example is an instance
 	dumpTriple(o.OpenAPI, o.TypeOpenAPI, p.Self, o.Example, oas.Validate(inst, root, "#", ctx) == nil)
+	var knownV *ev.Verdict // the recorded finding, reported at the end unless something else is wrong too
+	strictCtx := ctx       // (what the cross-check with the python validator is told)
 	if err := oas.Validate(inst, root, "#", ctx); err != nil {
-		return oasVerdict("example-invalid", err, "example "+o.Example+"\nschema "+o.OpenAPI+"\n"+tp.String())
+		err = beyondKnown(err, inst, root, ctx)
+		v := oasVerdict("example-invalid", err, "example "+o.Example+"\nschema "+o.OpenAPI+"\n"+tp.String())
+		if !strings.HasSuffix(v.Sig, ":allOf-vs-additionalProperties") {
+			return v
+		}
+		knownV = v
+		ctx = &oas.Ctx{Components: ctx.Components, TolerateAllOfAdditional: true}
 	}
 	// instances that are probably NOT valid, only for the validator cross-check (both verdicts wanted)
 	if ev.Thorough() {
 		for _, m := range perturb(inst) {
-			dumpTriple(o.OpenAPI, o.TypeOpenAPI, p.Self, m.Canon(), oas.Validate(m, root, "#", ctx) == nil)
+			dumpTriple(o.OpenAPI, o.TypeOpenAPI, p.Self, m.Canon(), oas.Validate(m, root, "#", strictCtx) == nil)
 		}
 	}
 	// every registered type's own example against its own conversion
@@ -340,13 +362,17 @@ func oracle(c Case) *ev.Verdict {
 				return ev.V("example:invalid-json", "Example() of a variation is not JSON: %.300s\n%s", o2.Example, qt)
 			}
 			nvar++
-			dumpTriple(o.OpenAPI, o.TypeOpenAPI, p.Self, o2.Example, oas.Validate(inst2, root, "#", ctx) == nil)
+			dumpTriple(o.OpenAPI, o.TypeOpenAPI, p.Self, o2.Example, oas.Validate(inst2, root, "#", strictCtx) == nil)
 			if err := oas.Validate(inst2, root, "#", ctx); err != nil {
+				err = beyondKnown(err, inst2, root, ctx)
 				return oasVerdict("variation-invalid", err, fmt.Sprintf("the schema's own rules accept %s in place of %s, but the instance %s is not valid for the ORIGINAL schema's conversion %s\n%s", cand, scalars[si].Lit, o2.Example, o.OpenAPI, tp))
 			}
 		}
 	}
 	ev.ClassN("projects", "variations judged", int64(nvar))
+	if knownV != nil {
+		return knownV
+	}
 	return nil
 }
 
@@ -674,6 +700,7 @@ func ownOracle(c OwnCase) *ev.Verdict {
 		return oasVerdict("own:ill-formed", err, o.OpenAPI+"\n"+c.P.String())
 	}
 	if err := oas.Validate(inst, root, "#", ctx); err != nil {
+		err = beyondKnown(err, inst, root, ctx)
 		return oasVerdict("example-invalid", err, "example "+o.Example+"\nschema "+o.OpenAPI+"\ncomponents "+fmt.Sprint(o.TypeOpenAPI)+"\n"+c.P.String())
 	}
 	ev.Class("own-registrations", "accepted, example judged")
